@@ -3,6 +3,7 @@
 package cl
 
 import (
+	"math"
 	"math/big"
 
 	"github.com/ohler55/slip"
@@ -23,3 +24,34 @@ func syncFloatPrec(v0, v1 *slip.LongFloat) {
 		_, _, _ = (*big.Float)(v1).Parse(s, 10)
 	}
 }
+
+// addFixnums adds two fixnums and promotes to a bignum on overflow.
+func addFixnums(a, b slip.Fixnum) slip.Object {
+	sum := a + b
+	if (a < 0) == (b < 0) && (sum < 0) != (a < 0) {
+		return (*slip.Bignum)(new(big.Int).Add(big.NewInt(int64(a)), big.NewInt(int64(b))))
+	}
+	return sum
+}
+
+// subFixnums subtracts b from a and promotes to a bignum on overflow.
+func subFixnums(a, b slip.Fixnum) slip.Object {
+	dif := a - b
+	if (a < 0) != (b < 0) && (dif < 0) != (a < 0) {
+		return (*slip.Bignum)(new(big.Int).Sub(big.NewInt(int64(a)), big.NewInt(int64(b))))
+	}
+	return dif
+}
+
+// mulFixnums multiplies two fixnums and promotes to a bignum on overflow.
+func mulFixnums(a, b slip.Fixnum) slip.Object {
+	if a == 0 || b == 0 {
+		return slip.Fixnum(0)
+	}
+	p := a * b
+	if p/b != a || (a == -1 && b == math.MinInt64) || (b == -1 && a == math.MinInt64) {
+		return (*slip.Bignum)(new(big.Int).Mul(big.NewInt(int64(a)), big.NewInt(int64(b))))
+	}
+	return p
+}
+
